@@ -35,7 +35,23 @@ impl Typstyle {
         // Inside an equation nothing may be broken, not even embedded code.
         let in_equation =
             std::iter::successors(node.parent(), |n| n.parent()).any(|n| n.kind() == SyntaxKind::Equation);
-        let ctx = if in_equation {
+        // Typst parses an expression pattern of a destructuring atomically: no line break may be
+        // put before its dots (`(a.b.c,) = x`), unless delimiters of its own enclose the node.
+        let in_pattern_expr = node.kind() != SyntaxKind::Destructuring
+            && std::iter::successors(node.parent(), |n| n.parent())
+                .take_while(|n| {
+                    !matches!(
+                        n.kind(),
+                        SyntaxKind::Args
+                            | SyntaxKind::Array
+                            | SyntaxKind::Dict
+                            | SyntaxKind::Parenthesized
+                            | SyntaxKind::CodeBlock
+                            | SyntaxKind::ContentBlock
+                    )
+                })
+                .any(|n| n.kind() == SyntaxKind::Destructuring);
+        let ctx = if in_equation || in_pattern_expr {
             ctx.suppress_breaks()
         } else {
             ctx
